@@ -554,7 +554,10 @@ class TrustRegion:
         xu = self._pb.bounds.xu - self.x_best
 
         # Evaluate the normal step.
-        radius = self._constants[Constants.BYRD_OMOJOKUN_FACTOR] * self.radius
+        radius = max(
+            self._constants[Constants.BYRD_OMOJOKUN_FACTOR] * self.radius,
+            TINY,
+        )
         normal_step = normal_byrd_omojokun(
             aub,
             bub,
@@ -688,13 +691,14 @@ class TrustRegion:
         # Compute a simple constrained Cauchy step.
         xl = self._pb.bounds.xl - self.x_best
         xu = self._pb.bounds.xu - self.x_best
+        radius = max(self.radius, TINY)
         step = cauchy_geometry(
             0.0,
             g_lag,
             lambda v: lag.curv(v, self.models.interpolation),
             xl,
             xu,
-            self.radius,
+            radius,
             options[Options.DEBUG],
         )
         sigma = self.models.determinants(self.x_best + step, k_new)
@@ -714,7 +718,7 @@ class TrustRegion:
             xpt[:, 1:],
             xl,
             xu,
-            self.radius,
+            radius,
             options[Options.DEBUG],
         )
         sigma_alt = self.models.determinants(self.x_best + step_alt, k_new)
